@@ -582,7 +582,7 @@ func retMayBeNilX(ret *ssa.Return, nonNil ssa.Value, pred *ssa.BasicBlock) bool 
 		return true
 	}
 	// the returned value itself (a phi over several calls, say) was tested non-nil on every path to this return
-	if guardedNonNil(stripConv(ret.Results[n-1]), ret.Block()) {
+	if guardedNonNil(stripConv(ret.Results[n-1]), ret.Block()) || knownNonNil(stripConv(ret.Results[n-1]), ret.Block()) {
 		return false
 	}
 	for _, rl := range returnLeaves(fn, n-1) {
